@@ -15,7 +15,7 @@ from ..fold import try_fold
 from ..model import AnalysisError, Repo, dotted, is_name, norm, walk_shallow
 from ..report import Ledger
 from ..sym import Const, Fmt, Lin, State, Sym, SymExec, Tup, as_lin, NotNumeric
-from ..util import kw
+from ..util import end_pos, pos, kw
 from .keys import asm_key, fuse_key, fuse_site, valuations
 
 PROP = "C10"
@@ -172,8 +172,8 @@ def run(repo: Repo, L: Ledger, tier: str):
         raise AnalysisError("anchor BuildAssembly.remap_to_input_assembly vanished")
     order = [c.func.attr for c in repo.calls_in(remap) if isinstance(c.func, ast.Attribute)]
     need = ["discard_overhanging_fragments", "cut_remaining_overhangs", "rename_haplotigs_by_size"]
-    pos = [order.index(x) if x in order else -1 for x in need]
-    L.check(all(p >= 0 for p in pos) and pos == sorted(pos), "R3", remap.short + ":order", "haplotigs renamed by size after discards and cuts", f"haplotigs are renamed by size before their lengths are final (call order {order})", remap.loc())
+    pos_ = [order.index(x) if x in order else -1 for x in need]
+    L.check(all(p >= 0 for p in pos_) and pos_ == sorted(pos_), "R3", remap.short + ":order", "haplotigs renamed by size after discards and cuts", f"haplotigs are renamed by size before their lengths are final (call order {order})", remap.loc())
 
     # ---- R4 chromosome numbering
     cn = repo.cls("ChrNamer")
@@ -204,7 +204,7 @@ def run(repo: Repo, L: Ledger, tier: str):
                 v2 = try_fold(num, env={iv: 4}, default=None) if num is not None else None
                 ok4b = isinstance(start, int) and v is not None and v + start == 1 and v2 + start == 5
                 why4b = f"chromosome numbers start at {None if v is None else v + start} (expected 1, 2, 3 … without holes)"
-            if sorts and lp_.lineno < sorts[0].lineno:
+            if sorts and pos(lp_) < pos(sorts[0]):
                 ok4b, why4b = False, "numbering happens before the groups are sorted"
     L.check(ok4b, "R4", nc.short + ":number", "chromosome n = index + 1 for every group", why4b, nc.loc())
     _first_haplotype(repo, L)
